@@ -110,11 +110,18 @@ def gen_inputs(arg):
     for t, tl, al in zip(texts, tok_lines, ast_lines):
         out["shas"].add(core.sha(t)[:12])
         toks, err, ends = reflex.parse_dump(tl)
+        if toks is None and err[0] == "skipped":
+            continue
         if toks is None:
             out["bad"].append(("lexer-" + err[0], "lexer %s on %r: %s" % (err[0], t[:80], err[1][:200]), t))
             continue
         if err and err[0] == "stuck":
             out["bad"].append(("lexer-stuck", "scanner yields more tokens than the input has characters: %r" % t[:80], t))
+            continue
+        if al == "skipped":
+            continue
+        if al == "hang":
+            out["bad"].append(("parser-hang", "the parser does not terminate on %r" % t[:80], t))
             continue
         if al.startswith("panic|"):
             out["bad"].append(("parser-panic", "parser panics on %r: %s" % (t[:80], bytes.fromhex(al[6:]).decode("utf-8", "replace")[:200]), t))
